@@ -200,7 +200,7 @@ func (c *Ctx) Violation(sig, what string, replay any) {
 	if len(g.replays) < 3 {
 		dir := filepath.Join(Root, "replay", c.ID)
 		os.MkdirAll(dir, 0o755)
-		doc := map[string]any{"property": c.ID, "signature": full, "what": what, "seed": c.Seed, "tier": c.Tier, "case": replay}
+		doc := map[string]any{"property": c.ID, "signature": full, "what": SafeString(what), "seed": c.Seed, "tier": c.Tier, "case": SafeJSON(replay)}
 		b, err := json.MarshalIndent(doc, "", " ")
 		if err != nil {
 			b = []byte(fmt.Sprintf(`{"property":%q,"signature":%q,"what":%q}`, c.ID, full, what))
